@@ -140,8 +140,9 @@ func TestC10(t *testing.T) {
 			rel()
 		case "paused":
 			pausedAt = int64(1 + r.Intn(len(rr.Loads)))
+			pauseIdx := pausedAt // the hook reads its own copy
 			S.OnOutgoingBlock = func(pp peer.ID, rq graphsync.RequestData, b graphsync.BlockData, a graphsync.OutgoingBlockHookActions) {
-				if pp == A.ID && rq.ID() == id && b.Index() == pausedAt {
+				if pp == A.ID && rq.ID() == id && b.Index() == pauseIdx {
 					a.PauseResponse()
 				}
 			}
